@@ -12,6 +12,7 @@ multiprocessing seam.  Two depths:
   mid-write) followed by resubmission of that job.
 """
 import copy
+import gc
 import json
 import os
 
@@ -87,6 +88,8 @@ def execute(plan, keep_events=False):
     seams.install_clock(sim.clock)
     ledger.install()
     cl.install()
+    gc_was = gc.isenabled()
+    gc.disable()      # finalisers run at chosen points only (see C12)
     try:
         if mode == 'args':
             for j in range(1, N + 1):
@@ -119,6 +122,7 @@ def execute(plan, keep_events=False):
                     tasks[j] = sched.spawn(proc.name, body, proc=proc,
                                            group=j)
                 ok = sched.run()
+                gc.collect(0)
                 if not ok:
                     violate('no_progress', {'hang': sched.hang,
                                             'steps': sched.steps,
@@ -144,6 +148,8 @@ def execute(plan, keep_events=False):
         judge(plan, sim, sb, cl, ledger, node_results, violations, states,
               info, data_dir, inputs)
     finally:
+        if gc_was:
+            gc.enable()
         cl.uninstall()
         ledger.uninstall()
         seams.uninstall_clock()
